@@ -304,7 +304,7 @@ class Analysis:
                 init[k] = iv
                 self._keyinfo_path(k, None, p["name"])
         self.caps = {}
-        self.IN = flow.forward(f, init, self.xfer_elem, self.xfer_edge, self.join, self.widen)
+        self.IN = self._forward(init)
         # second phase: counters of loops with a bounded trip count are capped
         # (loops.caps) instead of being widened to their type maximum
         from . import loops
@@ -318,12 +318,194 @@ class Analysis:
                 if not caps or caps == self.caps:
                     break
                 self.caps = caps
-                self.IN = flow.forward(f, init, self.xfer_elem, self.xfer_edge, self.join, self.widen)
+                self.IN = self._forward(init)
                 try:
                     caps = loops.caps(self)
                 except RecursionError:
                     break
         return self
+
+    # ---- forward engine with iteration-partitioned loops -------------------
+    # A loop whose abstract execution from its entry state leaves the loop by
+    # itself within MAX_TRIPS iterations (for (i = 0; i < 20; i++) with a
+    # constant start: i is a singleton in every iteration) is executed
+    # iteration by iteration without joining at the head (trace partitioning
+    # by iteration count).  This is exact where widening + caps is not: e.g.
+    # `index` in  for (i = 0; i < 20; index++, i++) { if (i == 10) index += 6; ... }
+    # Any other loop is handled by join/widen at its head as before.
+    MAX_TRIPS = int(__import__("os").environ.get("ZSA_TRIPS", "64"))
+    UNROLL_BUDGET = 8000        # block visits spent in unrolled iterations per run
+
+    def _forward(self, init):
+        from . import loops
+        self._loops = loops.natural_loops(self.f)
+        self._no_unroll = getattr(self, "_no_unroll", set())     # failures persist over the passes of run()
+        self._budget = self.UNROLL_BUDGET
+        self._wcount = {}
+        IN = {}
+        self._fw(self.f.entry, init, None, IN, None, None)
+        return IN
+
+    def _fw(self, entry, init, region, IN, exits, back):
+        """Worklist over `region` (None = whole function) starting at `entry`
+        with state `init`.  IN accumulates (joins) block entry states.  Edges
+        leaving the region are joined into exits[succ]; edges back to `entry`
+        (when region is a loop body) into back[0]."""
+        f = self.f
+        pos = f._cache.get("rpo_pos")
+        if pos is None:
+            pos = f._cache["rpo_pos"] = {b: k for k, b in enumerate(f.rpo())}
+        local = {entry: init}          # states of this run (not mixed with earlier iterations)
+        visits = {}
+        work = {entry}
+        while work:
+            bid = min(work, key=lambda b: pos.get(b, 1 << 30))
+            work.discard(bid)
+            s = local.get(bid)
+            if s is None:
+                continue
+            visits[bid] = visits.get(bid, 0) + 1
+            if visits[bid] > 60:
+                raise RuntimeError("dataflow does not converge in %s block %d" % (f.name, bid))
+            old_in = IN.get(bid)
+            IN[bid] = s if old_in is None else self.join(old_in, s)
+            if region is not None:
+                self._budget -= 1
+            # an inner (or, at top level, any) loop head: try to run it unrolled
+            if bid in self._loops and bid != entry and (bid, ) not in self._no_unroll:
+                r = self._unroll(bid, s, IN)
+                if r is not None:
+                    for succ, s2 in r.items():
+                        self._flow_to(succ, s2, bid, entry, region, local, work, exits, back, visits, pos, widen=False)
+                    continue
+                self._no_unroll.add((bid, ))
+            for eid in f.blocks[bid].elems:
+                s = self.xfer_elem(s, eid)
+                if s is None:
+                    break
+            if s is None:
+                continue
+            for succ, lab in f.edges(bid):
+                s2 = self.xfer_edge(s, bid, lab, succ)
+                if s2 is None:
+                    continue
+                if isinstance(lab, tuple) and 2 <= lab[2] - lab[1] + 1 <= self.MAX_CASE_SPLIT and succ != entry \
+                        and (region is None or succ in region):
+                    r = self._split_case(bid, succ, s2, IN)
+                    if r is not None:
+                        for s3, st3 in r.items():
+                            self._flow_to(s3, st3, bid, entry, region, local, work, exits, back, visits, pos, widen=False)
+                        continue
+                self._flow_to(succ, s2, bid, entry, region, local, work, exits, back, visits, pos, widen=True)
+
+    # `case 9 ... 14:` - the switch value is a small range: the code under the
+    # label is analysed once per value (value partitioning), so that quantities
+    # computed from it (index = (packet - 9) * 0x30 + 10) stay correlated with it
+    MAX_CASE_SPLIT = 8
+
+    def _split_case(self, sw, succ, st, IN):
+        f = self.f
+        t = f.blocks[sw].term
+        key = self._refinable(t["cond"]) if t and "cond" in t else None
+        if key is None or key not in st or self._budget <= 0:
+            return None
+        iv = st[key]
+        if iv[0] is None or iv[1] is None or iv[0] == iv[1] or iv[1] - iv[0] + 1 > self.MAX_CASE_SPLIT:
+            return None
+        c = f._cache.setdefault("dom_region", {})
+        if succ not in c:
+            c[succ] = {b for b in flow.reach_from(f, succ) if flow.dominates(f, succ, b)}
+        region = c[succ]
+        scratch, exits = {}, {}
+        for v in range(iv[0], iv[1] + 1):
+            s1 = dict(st)
+            s1[key] = (v, v)
+            back = [None]
+            try:
+                self._fw(succ, s1, region, scratch, exits, back)
+            except RuntimeError:
+                return None
+            if back[0] is not None:
+                return None        # the label is itself a loop head: not handled
+        for b, s in scratch.items():
+            o = IN.get(b)
+            IN[b] = s if o is None else self.join(o, s)
+        return exits
+
+    def _flow_to(self, succ, s2, bid, entry, region, local, work, exits, back, visits, pos, widen):
+        if region is not None:
+            if succ == entry:
+                back[0] = s2 if back[0] is None else self.join(back[0], s2)
+                return
+            if succ not in region:
+                exits[succ] = s2 if succ not in exits else self.join(exits[succ], s2)
+                return
+        old = local.get(succ)
+        if old is None:
+            new = s2
+        else:
+            new = self.join(old, s2)
+            if widen and visits.get(succ, 0) >= 3 and pos.get(succ, 0) <= pos.get(bid, 0):
+                new = self.widen(old, new, succ)
+        if old is None or new != old:
+            local[succ] = new
+            work.add(succ)
+
+    def _unroll(self, head, entry_state, IN):
+        """Execute the loop at `head` iteration by iteration from entry_state.
+        Returns {exit successor: state} or None when the loop does not leave
+        by itself within MAX_TRIPS iterations (then nothing was recorded)."""
+        body = self._loops[head]
+        if self._budget <= 0 or not self._unroll_candidate(head, body, entry_state):
+            return None
+        scratch = {}
+        exits = {}
+        st = entry_state
+        prev = None
+        for k in range(self.MAX_TRIPS + 1):
+            if st is None:
+                break
+            if st == prev or self._budget <= 0:
+                return None
+            back = [None]
+            try:
+                self._fw(head, st, body, scratch, exits, back)
+            except RuntimeError:
+                return None
+            prev = st
+            st = back[0]
+            if st is not None and any(kk[0] == "old" for kk in st):
+                st = {kk: v for kk, v in st.items() if kk[0] != "old"}
+        else:
+            return None
+        if st is not None:
+            return None
+        for b, s in scratch.items():
+            o = IN.get(b)
+            IN[b] = s if (o is None or b == head) else self.join(o, s)
+        return exits
+
+    def _unroll_candidate(self, head, body, entry_state):
+        """Cheap pre-test: some exit test of the loop reads a tracked value
+        that is a single constant when the loop is entered."""
+        f = self.f
+        c = f._cache.setdefault("loop_exit_conds", {})
+        if head not in c:
+            conds = []
+            for b in body:
+                t = f.blocks[b].term
+                if t and "cond" in t and any(s not in body for s, _ in f.edges(b)):
+                    conds.append(t["cond"])
+            c[head] = conds
+        for cond in c[head]:
+            for n in ex.walk(f, cond):
+                e = f.exprs[n]
+                if e["k"] in ("ref", "mem") and "it" in e and "v" not in e:
+                    key = self.track_key(n)
+                    v = entry_state.get(key) if key is not None else None
+                    if v is not None and v[0] is not None and v[0] == v[1]:
+                        return True
+        return False
 
     def state_before(self, eid):
         """State just before event/expression `eid` is evaluated."""
@@ -366,6 +548,13 @@ class Analysis:
                 continue
             if k[0] in ("iv", "old"):
                 out[k] = hull(v, w)
+            elif k[0] == "ver":
+                if v == w:
+                    out[k] = v
+            elif k[0] == "or":
+                m = v & w
+                if m:
+                    out[k] = m
             else:
                 out[k] = True
         return out
@@ -381,6 +570,22 @@ class Analysis:
                 continue
             lo = v[0] if (v[0] is not None and o[0] is not None and v[0] >= o[0]) else None
             hi = v[1] if (v[1] is not None and o[1] is not None and v[1] <= o[1]) else None
+            # widening with thresholds: jump to the nearest constant the function
+            # itself compares against (assert (n < 20) ... n++ stabilises at 20)
+            wc = self._wcount = getattr(self, "_wcount", {})
+            if hi is None or lo is None:
+                wc[(bid, k)] = wc.get((bid, k), 0) + 1
+            use_th = wc.get((bid, k), 0) <= 2          # then give up and go to the type limit
+            if use_th and hi is None and v[1] is not None:
+                for th in self._thresholds(k):
+                    if th >= v[1]:
+                        hi = th
+                        break
+            if use_th and lo is None and v[0] is not None:
+                for th in reversed(self._thresholds(k)):
+                    if th <= v[0]:
+                        lo = th
+                        break
             # stay within the declared type
             info = self.keyinfo.get(k)
             tr = getattr(info, "trange", None) if info else None
@@ -395,6 +600,42 @@ class Analysis:
             if (lo, hi) != (None, None):
                 out[k] = (lo, hi)
         return out
+
+    def _thresholds(self, key=None):
+        """Constants the function compares against - for a local variable only
+        those it is itself compared with."""
+        f = self.f
+        c = f._cache.setdefault("thresholds", {})
+        name = key[1] if key is not None and key[0] == "iv" and isinstance(key[1], str) and key[1].isidentifier() else None
+        if name not in c:
+            vals = set()
+            for e in f.exprs:
+                if e["k"] == "bin" and e["op"] in ("<", ">", "<=", ">=", "==", "!="):
+                    for x, y in ((e["c"][0], e["c"][1]), (e["c"][1], e["c"][0])):
+                        v = ex.const(f, x)
+                        if v is not None and -(1 << 31) <= v <= (1 << 32):
+                            if name is not None and not self._is_var_expr(y, name):
+                                continue
+                            vals.update((v - 1, v, v + 1))
+            c[name] = sorted(vals)
+        return c[name]
+
+    def _is_var_expr(self, y, name, depth=0):
+        """y is `name`, `name +- const` or a cast of those."""
+        f = self.f
+        j = ex.skip(f, y)
+        e = f.exprs[j]
+        while e["k"] == "cast":
+            j = ex.skip(f, e["c"][0])
+            e = f.exprs[j]
+        if e["k"] == "ref":
+            return e.get("name") == name
+        if e["k"] == "un" and e["op"] in ("++", "--"):
+            return self._is_var_expr(e["c"][0], name, depth + 1)
+        if e["k"] == "bin" and e["op"] in ("+", "-") and depth < 3:
+            return (ex.const(f, e["c"][1]) is not None and self._is_var_expr(e["c"][0], name, depth + 1)) or \
+                   (ex.const(f, e["c"][0]) is not None and self._is_var_expr(e["c"][1], name, depth + 1))
+        return False
 
     # ---- keys ------------------------------------------------------------------
     def _keyinfo_path(self, key, lv, name=None):
@@ -419,10 +660,16 @@ class Analysis:
                     mm.trange = type_range(p.get("it"))
             self.keyinfo[key] = mm
 
-    def track_key(self, lv):
-        """Key for an lvalue we are willing to track, or None."""
+    def track_key(self, lv, st=None):
+        """Key for an lvalue we are willing to track, or None.  With a state,
+        `a[j]` of a local array `a` whose index j is a single constant there is
+        the element key `a[c]` (so that an unrolled loop fills distinct keys)."""
         f = self.f
         i = ex.skip(f, lv)
+        if st is not None and i is not None and i >= 0:
+            ce = self._const_elem_key(i, st)
+            if ce is not None:
+                return ce
         if i is None or i < 0:
             return None
         e = f.exprs[i]
@@ -449,6 +696,35 @@ class Analysis:
     def _local_name(self, e):
         return e["name"]
 
+    def _const_elem_key(self, i, st):
+        f = self.f
+        e = f.exprs[i]
+        if e["k"] != "idx" or "it" not in e:
+            return None
+        b = ex.skip(f, e["c"][0])
+        be = f.exprs[b]
+        while be["k"] == "cast" and be["ck"] in ("ArrayToPointerDecay", "NoOp"):
+            b = ex.skip(f, be["c"][0])
+            be = f.exprs[b]
+        if not (be["k"] == "ref" and be.get("dk") == "local" and "arr" in be and be["name"] not in self.taken):
+            return None
+        ix = e["c"][1]
+        c = ex.const(f, ix)
+        if c is None:
+            v = self.eval(st, ix)
+            if v[0] is None or v[0] != v[1]:
+                return None
+            c = v[0]
+        if not (0 <= c < be["arr"][0]):
+            return None
+        key = ("iv", "%s[%d]" % (be["name"], c))
+        if key not in self.keyinfo:
+            mm = _MentionsTR()
+            mm.refs.add(be["name"])
+            mm.trange = node_range(e)
+            self.keyinfo[key] = mm
+        return key
+
     # ---- evaluation ----------------------------------------------------------
     def eval(self, st, i, depth=0):
         """Interval of integer expression i in state st."""
@@ -463,7 +739,7 @@ class Analysis:
         k = e["k"]
         tr = node_range(e)
         if k in ("ref", "mem", "idx") or (k == "un" and e["op"] == "*"):
-            key = self.track_key(i)
+            key = self.track_key(i, st) if k == "idx" else self.track_key(i)
             if key is not None and key in st:
                 return meet(st[key], tr) if tr != (None, None) else st[key]
             r = self.ctx.load_range(self, f, i, st)
@@ -514,6 +790,15 @@ class Analysis:
                 r = rem(a, b)
             elif op == "&":
                 r = band(a, b)
+                mp = self._mask_parts(i)
+                if mp is not None:
+                    pre = "&:%s:" % mp[0]
+                    for k2, v2 in st.items():
+                        if k2[0] == "iv" and isinstance(k2[1], str) and k2[1].startswith(pre) and None not in v2:
+                            M = int(k2[1][len(pre):])
+                            if (M & mp[1]) == mp[1] and v2[1] - v2[0] <= 64:
+                                vals = [x & mp[1] for x in range(v2[0], v2[1] + 1)]
+                                r = meet(r, (min(vals), max(vals)))
             elif op == "|":
                 r = bor(a, b)
             elif op == "^":
@@ -647,7 +932,8 @@ class Analysis:
         e = f.exprs[i]
         k = e["k"]
         if k == "asg":
-            return self._store(st, e["c"][0], self.eval(st, i), e)
+            st2 = self._store(st, e["c"][0], self.eval(st, i), e, eid=i)
+            return self._or_update(st, st2, e)
         if k == "un" and e["op"] in ("++", "--"):
             a = self.eval(st, e["c"][0])
             nv = wrap(add(a, (1, 1) if e["op"] == "++" else (-1, -1)), e.get("it"), arith=True)
@@ -704,13 +990,80 @@ class Analysis:
                     st = self.kill_local(st, f.exprs[r]["name"])
         return st
 
-    def _store(self, st, lhs, val, e):
+    def _or_update(self, st0, st, e):
+        """`err = (k = e)`, `err |= (k = e)`, `err |= k`: remember that the local
+        `err` has the value of key k OR-ed in (so err >= 0 implies k >= 0).
+        Members carry the id of the store that gave k its value; a later store
+        to k changes ("ver", k) and thereby retires the member."""
+        f = self.f
+        if st is None or e["op"] not in ("=", "|="):
+            return st
+        l = ex.skip(f, e["c"][0])
+        le = f.exprs[l]
+        if not (le["k"] == "ref" and le.get("dk") in ("local", "param") and le.get("it") and le["it"][1]
+                and le["name"] not in self.taken):
+            return st
+        okey = ("or", le["name"])
+        r = ex.skip(f, e["c"][1])
+        re_ = f.exprs[r]
+        while re_["k"] == "cast" and re_["ck"] in ("IntegralCast", "LValueToRValue", "NoOp"):
+            inner = f.exprs[ex.skip(f, re_["c"][0])]
+            if re_["ck"] == "IntegralCast" and not (inner.get("it") and inner["it"][1] and inner["it"][0] <= le["it"][0]):
+                break           # not a sign-preserving conversion
+            r = ex.skip(f, re_["c"][0])
+            re_ = f.exprs[r]
+        member = None
+        if re_["k"] == "asg" and re_["op"] == "=":
+            k = self.track_key(re_["c"][0], st0)
+            if k is not None and st.get(("ver", k)) == r:
+                member = (k, r)
+        elif re_["k"] in ("ref", "idx", "mem"):
+            k = self.track_key(r, st0) if re_["k"] == "idx" else self.track_key(r)
+            if k is not None and ("ver", k) in st and re_.get("it") and re_["it"][1]:
+                member = (k, st[("ver", k)])
+        old = st0.get(okey, frozenset()) if e["op"] == "|=" else frozenset()
+        new = old | ({member} if member else set())
+        if okey not in self.keyinfo:
+            mm = _MentionsTR()
+            mm.refs.add(le["name"])
+            self.keyinfo[okey] = mm
+        st = dict(st)
+        if new:
+            st[okey] = frozenset(new)
+        else:
+            st.pop(okey, None)
+        return st
+
+    _ELEM_RE = __import__("re").compile(r"^(\w+)\[(\d+)\]$")
+
+    def _store(self, st, lhs, val, e, eid=None):
         f = self.f
         l = ex.skip(f, lhs)
         le = f.exprs[l]
-        key = self.track_key(l)
+        key = self.track_key(l, st)
         if le["k"] == "ref" and le.get("dk") in ("local", "param"):
-            st = self.kill_local(st, le["name"], keep=None)
+            keep_or = ("or", le["name"]) if e.get("op") == "|=" else None
+            st = self.kill_local(st, le["name"], keep=keep_or)
+        elif key is not None and self._ELEM_RE.match(str(key[1])) and le["k"] == "idx":
+            # element of a local array at a known index: the other elements keep their values
+            base = self._ELEM_RE.match(key[1]).group(1)
+            out = None
+            for k2 in st:
+                if k2 == key or k2 == ("ver", key):
+                    pass
+                elif k2[0] in ("iv", "ver") and (k2[1] if k2[0] == "iv" else k2[1][1]) != key[1] \
+                        and isinstance((k2[1] if k2[0] == "iv" else k2[1][1]), str) \
+                        and self._ELEM_RE.match(k2[1] if k2[0] == "iv" else k2[1][1]) \
+                        and self._ELEM_RE.match(k2[1] if k2[0] == "iv" else k2[1][1]).group(1) == base:
+                    continue
+                else:
+                    m = self._mentions_of_key(k2)
+                    if not (m is None or base in m.refs):
+                        continue
+                if out is None:
+                    out = dict(st)
+                del out[k2]
+            st = st if out is None else out
         else:
             toks = summaries.write_tokens(f, l) if summaries.is_nonlocal_lvalue(f, l) else set()
             if not toks:
@@ -721,9 +1074,15 @@ class Analysis:
                     st = self._kill_local_member(st, f.exprs[r]["name"], toks)
             else:
                 st = self.kill_tokens(st, toks)
-        if key is not None and val is not None and val != (None, None) and "it" in le:
+        if key is not None and "it" in le:
             st = dict(st)
-            st[key] = meet(val, node_range(le))
+            if val is not None and val != (None, None):
+                st[key] = meet(val, node_range(le))
+            if eid is not None:
+                vk = ("ver", key)
+                st[vk] = eid
+                if vk not in self.keyinfo and key in self.keyinfo:
+                    self.keyinfo[vk] = self.keyinfo[key]
         return st
 
     def _kill_local_member(self, st, name, toks):
@@ -797,8 +1156,50 @@ class Analysis:
             return self.track_key(e["c"][0])
         if e["k"] == "cast" and e["ck"] == "IntegralCast":
             # value-changing cast: refine only when the operand fits
+            inner = ex.skip(f, e["c"][0])
+            if f.exprs[inner]["k"] == "bin" and f.exprs[inner]["op"] == "&":
+                return self._mask_key(inner)
             return None
+        if e["k"] == "bin" and e["op"] == "&":
+            return self._mask_key(j)
         return self.track_key(j)
+
+    def _mask_parts(self, j):
+        """(local name, mask) when node j is `local & constant` (either order,
+        through integer promotions), else None."""
+        f = self.f
+        e = f.exprs[j]
+        if not (e["k"] == "bin" and e["op"] == "&"):
+            return None
+        a, b = e["c"]
+        for x, y in ((a, b), (b, a)):
+            m = ex.const(f, y)
+            if m is None or m < 0:
+                continue
+            k = ex.skip(f, x)
+            ke = f.exprs[k]
+            while ke["k"] == "cast" and ke["ck"] in ("IntegralCast", "LValueToRValue", "NoOp"):
+                k = ex.skip(f, ke["c"][0])
+                ke = f.exprs[k]
+            if ke["k"] == "ref" and ke.get("dk") in ("local", "param") and ke["name"] not in self.taken:
+                it = ke.get("it")
+                if it and not it[1] or (it and m < (1 << (it[0] - 1))):
+                    return ke["name"], m
+        return None
+
+    def _mask_key(self, j):
+        """Pseudo-lvalue for the value of `local & mask` (refined by a switch or
+        comparison on that expression, read back by `local & submask`)."""
+        mp = self._mask_parts(j)
+        if mp is None:
+            return None
+        key = ("iv", "&:%s:%d" % mp)
+        if key not in self.keyinfo:
+            mm = _MentionsTR()
+            mm.refs.add(mp[0])
+            mm.trange = (0, mp[1])
+            self.keyinfo[key] = mm
+        return key
 
     # ---- assume ---------------------------------------------------------------------
     def assume(self, st, c, truth, record=False):
@@ -957,6 +1358,17 @@ class Analysis:
         if is_empty(na) or is_empty(nb):
             return None
         out = st
+        for kk, nn in ((ka, na), (kb, nb)):
+            if kk is not None and kk[0] == "iv" and nn[0] is not None and nn[0] >= 0 and ("or", kk[1]) in st:
+                for mk, ver in st[("or", kk[1])]:
+                    if st.get(("ver", mk)) == ver:
+                        tr = getattr(self.keyinfo.get(mk), "trange", None) or (None, None)
+                        if tr[0] is not None and tr[0] < 0:
+                            if out is st:
+                                out = dict(out)
+                            out[mk] = meet(out.get(mk, tr), (0, None))
+                            if is_empty(out[mk]):
+                                return None
         if ka is not None and na != va:
             out = dict(out)
             cur = out.get(ka)
